@@ -258,6 +258,63 @@ def check_metricframe(case):
     return _tags(part)
 
 
+# ---- exhaustive tuple tables ------------------------------------------------------------------------------------
+
+
+def _cells(alphabet, max_len):
+    out = [""]
+    for L in range(1, max_len + 1):
+        out += ["".join(t) for t in itertools.product(alphabet, repeat=L)]
+    return out
+
+
+def _n_groups(table, role, kind):
+    import fairlearn.reductions as fr
+
+    n = len(table)
+    mom = fr.DemographicParity()
+    X = np.zeros((n, 1))
+    y = np.arange(n) % 2
+    feat = _wrap_table(kind, table)
+    if role == "control":
+        mom.load_data(X, y, sensitive_features=np.asarray(["p"] * n), control_features=feat)
+        return len({e[1] for e in mom.index.tolist()})
+    mom.load_data(X, y, sensitive_features=feat)
+    return len({e[2] for e in mom.index.tolist()})
+
+
+def check_exhaustive(case):
+    """One table holding *every* tuple over all cells of length <= max_len over the alphabet: the number of
+    groups (strata) must equal the number of rows.  On failure the table is reduced to a minimal colliding set."""
+    cells = _cells(case["alphabet"], case["max_len"])
+    table = [list(t) for t in itertools.product(cells, repeat=case["ncol"])]
+    role, kind = case["role"], case["kind"]
+    if _n_groups(table, role, kind) != len(table):
+        rows = table
+        chunk = len(rows) // 2
+        while chunk >= 1 and len(rows) > 2:
+            reduced = False
+            for start in range(0, len(rows), chunk):
+                cand = rows[:start] + rows[start + chunk:]
+                if len(cand) >= 2 and _n_groups(cand, role, kind) != len(cand):
+                    rows, reduced = cand, True
+                    break
+            if not reduced:
+                chunk //= 2
+        raise PropertyViolation(f"distinct tuples fall into one group ({role} features, {kind}): {[tuple(r) for r in rows]}")
+    return ["nt", "role:" + role, f"tuples:{len(table)}"]
+
+
+def _enumerate_tables(tier):
+    cfgs = [([",", "\\"], 3, 2), (["a", ",", "\\"], 2, 2), ([",", "\\"], 2, 3), (["1", ".", "0"], 2, 2)]
+    if tier == "thorough":
+        cfgs += [(["a", ",", "\\"], 3, 2), ([",", "\\"], 4, 2), (["a", ",", "\\"], 2, 3), ([",", "\\", " "], 3, 2)]
+    for alphabet, max_len, ncol in cfgs:
+        for role in ("sensitive", "control"):
+            for kind in ("ndarray", "dataframe"):
+                yield {"alphabet": alphabet, "max_len": max_len, "ncol": ncol, "role": role, "kind": kind}
+
+
 # ---- strategies ---------------------------------------------------------------------------------------------------
 
 _cell = st.one_of(st.sampled_from(CELLS), st.lists(st.sampled_from(CHARS), min_size=0, max_size=3).map("".join))
@@ -414,6 +471,7 @@ SUBS = [
         floors={"nt": 0.4}),
     Sub("metricframe_partition", check_metricframe, strategy=_mf_cases, quick=300, thorough=10000, shards=8,
         floors={"nt": 0.5}),
+    Sub("exhaustive_tuple_tables", check_exhaustive, enumerate=_enumerate_tables, shards=16, exhaustive=True),
     # failing fuzz inputs are replayed through the moment_partition check (same case format)
     Sub("atheris_moment_partition", check_moment, custom=_fuzz_shard, quick=4000, thorough=160000, shards=8),
 ]
